@@ -108,6 +108,19 @@ Theorem C10_cache_transparent : forall cards d sc maxs calls, (1 <= maxs)%nat ->
 Proof. exact cache_transparent. Qed.
 Print Assumptions C10_cache_transparent.
 
+(* ScoreCache(score).score(model), called after ANY sequence of cached local_score calls, is exactly
+   score.score(model): the sum of the local scores plus the structure prior of the wrapped score (after fix
+   c25bc1d the cache delegates the prior), for all five scores; the cache stays within the function's graph and
+   max_size *)
+Theorem C10_cache_transparent_total : forall cards d sc maxs calls nodes edges, (1 <= maxs)%nat ->
+  let c := snd (cached_scores cards d sc maxs calls) in
+  fst (cached_total_score cards d sc maxs c nodes edges) = total_score cards d sc nodes edges
+  /\ (forall k v, In (k, v) (snd (cached_total_score cards d sc maxs c nodes edges)) ->
+        v = local_score cards d sc (fst k) (snd k))
+  /\ (length (snd (cached_total_score cards d sc maxs c nodes edges)) <= maxs)%nat.
+Proof. exact cache_transparent_total. Qed.
+Print Assumptions C10_cache_transparent_total.
+
 (* every local score (K2, BDeu, BDs, BIC, AIC) is invariant under permutation of the rows *)
 Theorem C10_row_perm : forall cards d d' sc x ps, Permutation d d' ->
   wf_data cards d -> wf_vars cards (x :: ps) ->
